@@ -575,6 +575,43 @@ func membershipBefore(w *World, fl *Flow, f *ssa.Function, app ssa.Instruction) 
 			return false, "the membership test does not govern the append on every path (another disjunct admits a repeated voter)"
 		}
 	}
+	// the identity asked about is the identity appended: a test for some other spelling of the voter
+	// (the orchestrator account instead of the operator address) never matches a stored vote
+	if st, ok := app.(*ssa.Store); ok {
+		if ac, ok := canon(st.Val).(*ssa.Call); ok && len(ac.Call.Args) == 2 {
+			leaves := map[ssa.Value]bool{}
+			for _, l := range coinLeaves(ac.Call.Args[1]) {
+				leaves[canon(l)] = true
+			}
+			for in := range cands {
+				var needles []ssa.Value
+				switch x := in.(type) {
+				case *ssa.Call:
+					if len(x.Call.Args) == 2 {
+						needles = append(needles, x.Call.Args[1])
+					}
+				case *ssa.BinOp:
+					for _, side := range []ssa.Value{x.X, x.Y} {
+						aps, _ := fl.Influence(side)
+						isVotes := false
+						for a := range aps {
+							if strings.Contains(a.Path, ".Votes[]") {
+								isVotes = true
+							}
+						}
+						if !isVotes {
+							needles = append(needles, side)
+						}
+					}
+				}
+				for _, n := range needles {
+					if !leaves[canon(n)] {
+						return false, "the membership test over the votes asks about a value other than the voter that is appended"
+					}
+				}
+			}
+		}
+	}
 	return true, "membership comparison precedes the append"
 }
 
